@@ -656,40 +656,13 @@ PROP_TY = "mqtt::packet::property::Property"
 
 
 def fn_refs(f):
-    """Every function item a body refers to: resolved call targets, fn items used as values (`helper(x, Self::check)`,
-    a reified `fn(..)` pointer) and closures it creates."""
-    out = set()
-
-    def walk(x):
-        if isinstance(x, dict):
-            fi = x.get("fn")
-            if isinstance(fi, dict) and "path" in fi:
-                out.add((fi.get("res") or {}).get("path", fi["path"]))
-            c = x.get("closure")
-            if isinstance(c, str):
-                out.add(c)
-            for v in x.values():
-                walk(v)
-        elif isinstance(x, list):
-            for v in x:
-                walk(v)
-    walk(f["blocks"])
-    return out
+    import facts
+    return facts.fn_refs(f)
 
 
 def is_prop_validator(f):
-    """A free function of the packet layer that takes a property list (slice / Vec / Option of it) and returns
-    Result<(), MqttError>: the shape of every per-location property check, whatever it is called."""
-    if f.get("kind") != "Fn" or not f["path"].startswith("mqtt::packet::"):
-        return False
-    rt = f["locals"][0].replace(" ", "")
-    if not (rt.startswith("std::result::Result<") and rt.endswith(",mqtt::result_code::MqttError>")):
-        return False
-    ok = rt[len("std::result::Result<"):-len(",mqtt::result_code::MqttError>")]
-    if ok != "()" and not (ok.startswith("mqtt::packet::") and "(" not in ok and "<" not in ok):       # () or a plain in-crate summary struct
-        return False
-    import explore
-    return explore.takes_property_list(f)
+    """Terminal property validator (classified at fact load: facts.classify_validators)."""
+    return bool(f.get("prop_validator"))
 
 
 def validators_reached(F, starts, through=None):
